@@ -58,6 +58,8 @@ pub fn oligo_paths(seed: u64, groups: usize, dir: &str, maxn: usize) {
         inputs.push(mk("crlf", "fna", Layout { crlf: true, final_nl: false, ..plain.clone() }, None, &mut rng));
         if !with_empty {
             inputs.push(mk("fq", "fq", Layout { fastq: true, ..plain.clone() }, None, &mut rng));
+            // FASTQ with bases and qualities wrapped over several lines (the reader accepts it; a line count is not a record count)
+            inputs.push(mk("fqwrapped", "fastq", Layout { fastq: true, wrap: rng.range(1, 40) as usize, ..plain.clone() }, None, &mut rng));
         }
         inputs.push(mk("gz", "fa.gz", plain.clone(), Some((1, false)), &mut rng));
         inputs.push(mk("gz3", "fasta.gz", plain.clone(), Some((3, g % 2 == 0)), &mut rng));
@@ -71,7 +73,7 @@ pub fn oligo_paths(seed: u64, groups: usize, dir: &str, maxn: usize) {
                 let mem = *rng.pick(&[1usize, 7, 64, 1 << 32]);
                 let out = format!("{}/paths_out.txt", dir);
                 let _ = std::fs::remove_file(&out);
-                let res = std::panic::catch_unwind(|| run_oligo(path, &out, k, true, wp, threads, delim, false, Some(mem)));
+                let res = std::panic::catch_unwind(|| if (g + threads) % 3 == 0 { run_oligo_reused(path, &out, k, true, wp, threads, delim, false, Some(mem)) } else { run_oligo(path, &out, k, true, wp, threads, delim, false, Some(mem)) });
                 let data = std::fs::read(&out).unwrap_or_default();
                 let lines = data.iter().filter(|&&b| b == b'\n').count();
                 let d = if matches!(res, Ok(Ok(()))) { fnv(&data) } else { "failed".to_string() };
@@ -88,7 +90,7 @@ pub fn oligo_paths(seed: u64, groups: usize, dir: &str, maxn: usize) {
         for (pname, wp) in [("mmap", WPath::Mmap), ("batch", WPath::Batch)] {
             let out = format!("{}/paths_out.txt", dir);
             let _ = std::fs::remove_file(&out);
-            let res = std::panic::catch_unwind(|| run_oligo(&inputs[0].1, &out, k, true, wp, 3, delim, true, None));
+            let res = std::panic::catch_unwind(|| if g % 2 == 0 { run_oligo_reused(&inputs[0].1, &out, k, true, wp, 3, delim, true, None) } else { run_oligo(&inputs[0].1, &out, k, true, wp, 3, delim, true, None) });
             let data = std::fs::read(&out).unwrap_or_default();
             let lines = data.iter().filter(|&&b| b == b'\n').count();
             let body: &[u8] = match data.iter().position(|&b| b == b'\n') {
